@@ -87,6 +87,9 @@ func typeShapes() []struct {
 		{"TwiceGen", Map(Named(a, "U"), NamedG(a, "G", Named(b, "T")))}, {"NestGen", NamedG(a, "G", NamedG(a, "G", Named(b, "T")))},
 		{"TwiceLocal", Map(Named(a, "U"), NamedG(a, "G", Named(-1, "LocalT")))}, {"PairMix", NamedG(a, "Pair", NamedG(a, "G", Named(b, "U")), Named(-1, "LocalT"))},
 		{"FnTwice", Func([]T{Named(a, "T"), NamedG(a, "G", Named(b, "T"))}, []T{Named(b, "U")})},
+		// named types over every kind of underlying type, exotic basics
+		{"NamedFn", Named(a, "Fn")}, {"NamedSl", Named(b, "Sl")}, {"NamedMp", Named(a, "Mp")}, {"NamedCh", Named(b, "Ch")}, {"NamedArr", Named(a, "Arr")},
+		{"NamedPtr", Named(b, "Ptr")}, {"Complex", Basic("complex128")}, {"Uintptr", Basic("uintptr")}, {"SlOfSl", Slice(Named(a, "Sl"))}, {"FnOfFn", Func([]T{Named(a, "Fn")}, []T{Named(b, "Fn")})},
 		// literals that embed named types
 		{"IfaceEmbed", IfaceEmbed(Named(a, "I"))}, {"StructEmbed", StructEmbed(Named(b, "T"))}, {"IfaceEmbedLocal", IfaceEmbed(Named(-1, "LocalC"))},
 	}
